@@ -26,11 +26,11 @@ CFG = {
     "axioms": [],
     "trusted": COMMON_TB + [
         "open(2)/chmod(2) semantics: a new file gets perm & ~umask, an existing file keeps its mode, chmod ignores the umask (modelled in Model/Secrecy.v; validated on every run by stat of the files the real code creates in a re-executed child per umask)",
-        "the exposure translator (harness/extract/exposure.go): a syntactic taint analysis over go/parser ASTs (struct field / parameter / result types read from declarations, calls into the parsed packages analysed through the callee's body, other calls propagate their arguments' roots); values passed through opaque external calls are assumed to depend only on their arguments",
+        "the exposure translator (harness/extract/exposure.go): a syntactic taint analysis over go/parser ASTs (struct field / parameter / result types read from declarations, calls into the parsed packages analysed through the callee's body, other calls propagate their arguments' roots); values passed through opaque external calls are assumed to depend only on their arguments; kyber's dkg.VerifyPacketSignature and dkg.NewProtocol, which take the DKG configuration (long-term key, share), are assumed not to put key material into their results or errors",
         "kyber: the deal bundles of the DKG are encrypted and signatures / partial signatures / commitments do not reveal the scalars they are computed from (not modelled; the crypto-op fields are exactly the ones the noninterference theorem blanks)",
     ],
     "assumptions": [
-        "outputs modelled: every protobuf message literal, handler return value, stream Send, field assignment on a message and log call in internal/core/drand_beacon{,_control,_public}.go, drand_daemon_dkg_proxy.go, internal/dkg/actions_{active,passive,signing}.go, execution.go and internal/chain/beacon/node.go; outputs built elsewhere are covered by the byte scan only",
+        "outputs modelled: every protobuf message literal, handler return value, stream Send, field assignment on a message and log call in internal/core/drand_beacon{,_control,_public}.go, drand_daemon_dkg_proxy.go, internal/dkg/actions_{active,passive,signing}.go, execution.go, broadcast.go and internal/chain/beacon/node.go; outputs built elsewhere are covered by the byte scan only",
         "file modes: the property is about files the current code creates; a dkg.db that already exists keeps its mode (C15_dkgdb_existing_file_keeps_mode)",
         "derived leaks (timing, memory dumps, core files) are outside any executable model",
     ],
